@@ -1,2 +1,44 @@
-// Package c09: correspondence harness for property C09 (stub — registers nothing yet).
+// Package c09: see harness/envh (shared environment-machine harness) and lean/ControlModel/Spec/C09.lean.
 package c09
+
+import (
+	"verifharness/envh"
+	"verifharness/fw"
+	"verifharness/rng"
+)
+
+func generate(tier string, r *rng.R) []fw.Case {
+	n := nQuick
+	if tier == "thorough" {
+		n = nThorough
+	}
+	var cs []fw.Case
+	for i := 0; i < n; i++ {
+		cs = append(cs, envh.GenCase(r.Fork(), profile))
+	}
+	return cs
+}
+
+func init() {
+	fw.Register(&fw.Property{
+		ID:         "C09",
+		Generate:   generate,
+		RunImpl:    func(in string) (string, error) { return envh.Run(in, true) },
+		Nontrivial: nontrivial,
+		Rule:       rule,
+		Shrink:     envh.Shrink,
+		Workers:    1,
+		Setup:      envh.Setup,
+		Teardown:   envh.Teardown,
+		TrustedBase: []string{
+			"harness/envh: environment builder (YAML roles, NewTaskForVerif tasks), probe plugin (verifprobe.Probe), event capture, fake task manager answering ReleaseTasks",
+			"verif hooks in /repo: core/environment/verif_hooks.go, core/workflow/verif_hooks.go, core/the/verif_hooks.go, core/task/verif_hooks_task.go",
+			"trace monitor (lean/ControlModel/Spec/EnvTrace.lean): probe calls are judged by windows and happens-before, not by exact position",
+		},
+		Assumptions: []string{
+			"looplab/fsm v1.0.1 Event/Cancel semantics as modelled (sampled by every case)",
+			"scripted task-level bodies stand in for the real transition bodies; task hooks are answered by the harness (BasicTaskTerminated with exit code) through a blocking delivery hook",
+			"goroutine scheduling of call hooks is arbitrary; the harness paces time.Now() reads so that distinct stamps differ",
+		},
+	})
+}
